@@ -75,7 +75,7 @@ fn literal(ty: Option<&CType>) -> BoxedStrategy<MVal> {
         Some(CType::Number) => prop_oneof![(0i128..5).prop_map(MVal::Int), Just(MVal::Float(1.5))].boxed(),
         Some(CType::Array) => prop_oneof![Just(MVal::Array(vec![])), Just(MVal::Array(vec![MVal::Int(1), MVal::s("<a>")]))].boxed(),
         Some(CType::Map) => prop_oneof![Just(MVal::smap(vec![])), Just(MVal::smap(vec![("k", MVal::Int(1))]))].boxed(),
-        None => prop_oneof![(0i128..5).prop_map(MVal::Int), prop::sample::select(vec!["", "d<", "é"]).prop_map(MVal::s), any::<bool>().prop_map(MVal::Bool), Just(MVal::Float(2.5)), Just(MVal::Float(2.0)), Just(MVal::Float(0.0)), Just(MVal::Int(9223372036854775808)), Just(MVal::None), Just(MVal::Array(vec![MVal::Int(7)])), Just(MVal::smap(vec![("k", MVal::s("v"))]))].boxed(),
+        None => prop_oneof![(0i128..5).prop_map(MVal::Int), prop::sample::select(vec!["", "d<", "é"]).prop_map(MVal::s), any::<bool>().prop_map(MVal::Bool), Just(MVal::Float(2.5)), Just(MVal::Float(2.0)), Just(MVal::Float(0.0)), Just(MVal::None), Just(MVal::Array(vec![MVal::Int(7)])), Just(MVal::smap(vec![("k", MVal::s("v"))]))].boxed(),
     }
 }
 fn ctype() -> BoxedStrategy<CType> {
